@@ -349,7 +349,85 @@ func skeleton(t skelTarget) string {
 	}
 	w := &skelWriter{t: t}
 	w.block(fd.Body)
-	return strings.Join(w.lines, "\n") + "\n"
+	return strings.Join(prune(w.lines), "\n") + "\n"
+}
+
+// prune drops control-flow constructs that contain no watched event (lock op, yield point, watched
+// field access, watched call, channel op), so that unrelated code does not show in a skeleton.
+func prune(lines []string) []string {
+	type node struct {
+		text string
+		kids []*node
+	}
+	depthOf := func(l string) int { return (len(l) - len(strings.TrimLeft(l, " "))) / 2 }
+	root := &node{}
+	stack := []*node{root}
+	for _, l := range lines {
+		d := depthOf(l)
+		if d+1 < len(stack) {
+			stack = stack[:d+1]
+		}
+		for d+1 > len(stack) { // defensive: a jump of two levels
+			stack = append(stack, stack[len(stack)-1])
+		}
+		n := &node{text: strings.TrimSpace(l)}
+		stack[len(stack)-1].kids = append(stack[len(stack)-1].kids, n)
+		stack = append(stack[:d+1], n)
+	}
+	var significant func(n *node) bool
+	significant = func(n *node) bool {
+		t := n.text
+		if strings.Contains(t, ".Lock") || strings.Contains(t, ".Unlock") || strings.Contains(t, ".RLock") || strings.Contains(t, ".RUnlock") ||
+			strings.HasPrefix(t, "point:") || strings.HasPrefix(t, "read:") || strings.HasPrefix(t, "write:") ||
+			strings.HasPrefix(t, "call:") || strings.HasPrefix(t, "send:") || strings.HasPrefix(t, "recv:") {
+			return true
+		}
+		for _, k := range n.kids {
+			if significant(k) {
+				return true
+			}
+		}
+		return false
+	}
+	var out []string
+	var emit func(ns []*node, depth int)
+	emit = func(ns []*node, depth int) {
+		for i := 0; i < len(ns); i++ {
+			n := ns[i]
+			opener := strings.HasSuffix(n.text, "{") && n.text != "}else{"
+			if opener {
+				// the construct spans up to its closing "}" sibling (with optional "}else{" parts)
+				j := i + 1
+				sig := significant(n)
+				for j < len(ns) && ns[j].text != "}" {
+					if significant(ns[j]) {
+						sig = true
+					}
+					j++
+				}
+				if sig {
+					for k := i; k <= j && k < len(ns); k++ {
+						out = append(out, strings.Repeat("  ", depth)+ns[k].text)
+						emit(ns[k].kids, depth+1)
+					}
+				}
+				i = j
+				continue
+			}
+			if n.text == "}" || n.text == "}else{" {
+				continue
+			}
+			if strings.HasPrefix(n.text, "case ") || n.text == "default:" || n.text == "comm:" || n.text == "case:" {
+				out = append(out, strings.Repeat("  ", depth)+n.text)
+				emit(n.kids, depth+1)
+				continue
+			}
+			out = append(out, strings.Repeat("  ", depth)+n.text)
+			emit(n.kids, depth+1)
+		}
+	}
+	emit(root.kids, 0)
+	return out
 }
 
 // ------------------------------------------------------------------ facts (T1)
